@@ -44,6 +44,8 @@ def batch? : List String → Option (BatchFn × List String)
   | "each" :: r => (fn? r).map (fun p => (.each p.1, p.2))
   | "rev" :: r => some (.rev, r)
   | "sumall" :: r => some (.sumall, r)
+  | "droplast" :: r => some (.droplast, r)
+  | "dupfirst" :: r => some (.dupfirst, r)
   | _ => none
 
 def comb? : List String → Option (Comb × List String)
@@ -69,6 +71,13 @@ def kind? : String → Option JoinKind
 /-- `1,2,3` or `-` -/
 def ints? (s : String) : Option (List Int) :=
   if s == "-" then some [] else (s.splitOn ",").mapM parseInt?
+
+/-- `0:10,1:20,0:30` or `-` -/
+def intPairs? (s : String) : Option (List (Int × Int)) :=
+  if s == "-" then some [] else (s.splitOn ",").mapM (fun kv =>
+    match kv.splitOn ":" with
+    | [k, v] => do let k ← parseInt? k; let v ← parseInt? v; pure (k, v)
+    | _ => none)
 
 /-- rows: one `Val` that must be a list -/
 def rows? (toks : List String) : Option (List Val × List String) :=
@@ -134,6 +143,18 @@ def step? : Nat → List String → Option (Step × List String)
         match r with
         | "]" :: r => pure (.join k src steps, r)
         | _ => none
+    | "try_map_p" :: r => (pred? r).map (fun p => (.tryMapP p.1, p.2))
+    | "try_flat_map" :: r => do
+        let (f, r) ← flat? r
+        let (p, r) ← pred? r
+        pure (.tryFlatMap f p, r)
+    | "res_map" :: r => (fn? r).map (fun p => (.resMap p.1, p.2))
+    | "res_filter" :: r => (pred? r).map (fun p => (.resFilter p.1, p.2))
+    | "map_side_map_p" :: pairs :: r => (intPairs? pairs).map (fun l => (.mapSideMapP l, r))
+    | "custom_value_op" :: n :: c :: r => do
+        let n ← parseInt? n
+        let c ← parseNat? c
+        pure (.customValueOp n c, r)
     | _ => none
 
 /-- `; step ; step …` until `]` or the end -/
